@@ -24,8 +24,8 @@ STUBS = ["np proxy", "SymArray"]
 
 
 def bounds_text(tier):
-    return "value table n=2..4, graph n=2..4, both paths (surplus zero / non-zero)" if tier == "quick" else \
-        "value table n=2..5, graph n=2..5, both paths"
+    return "value table n=2..5, graph n=2..5, both paths (surplus zero / non-zero); fp64 kernel n=3" if tier == "quick" else \
+        "value table n=2..6, graph n=2..6, both paths; fp64 kernel n=3 (longer solver budget)"
 
 
 FP_SIG = "C15/fp64/additive-residue"
@@ -36,7 +36,7 @@ SOFT_SIGNATURES = (FP_SIG,)
 
 def tasks(tier, seed):
     out = [{"key": "fp64/additive/n3", "kind": "fp64", "n": 3}]
-    nmax = 5 if tier == "thorough" else 4
+    nmax = 6 if tier == "thorough" else 5
     for n in range(2, nmax + 1):
         out.append({"key": f"icg/n{n}", "kind": "icg", "n": n})
         out.append({"key": f"graph/n{n}", "kind": "graph", "n": n})
